@@ -98,22 +98,23 @@ na("C07", "quantifies over the numeric behaviour of the sliding-window density, 
 
 # Rules added after the seeding rounds (DESIGN.md 10.2, 10.6): (technique addition, level-text addition)
 ADDED = {
- "C01": ("", " Also: the run detector is called with the search set's own clamped q."),
- "C02": ("line-accounting invariant over enumerated iteration paths (linear forms)", " Line accounting: on every path through one iteration of the tokenizer's rune loop the line counter plus the held-back line breaks advance by exactly one when the decoded rune is a newline and not otherwise, and no held line break survives the hand-over of a line's words to the document (so StartLine/EndLine are the lines the words stand on)."),
- "C03": ("line-accounting invariant over enumerated iteration paths, loop-nesting rule for token production", " The line-to-tokens conversion emits at most one token per buffered word (token indices stay below the number of input words); the line counter obeys the accounting invariant described under C02."),
- "C04": ("must-pass-through rule for AddContent", " AddContent reaches addDocument on every path; an explicitly set go-diff DiffTimeout is reported like the default one."),
- "C05": ("scan-position rule, result-provenance rule for the token clean-up", " The scan position moves only by the size of the decoded rune (no byte is stepped over without being decoded and dispatched); the token clean-up returns text it built rune by rune, never its raw argument unless that was shown to consist of letters only."),
- "C06": ("dominance rule for the notice patterns, key-provenance rule for the spelling table", " The notice patterns are consulted on every path that reaches the token loop; the spelling table is looked up with the cleaned word; integer tokenizer state survives buffer refills too."),
- "C08": ("scan-position rule", " The scan position moves only by the size of the decoded rune; all tokenizer state (flags, line, held line breaks) is carried across buffer refills."),
+ "C01": ("", " Also: the run detector is called with the search set's own clamped q. In the containment branch of the overlap filter a candidate is given up only under a strict comparison (equal weights keep both copies); the window is filled by a loop that reports the reader's own error and the decoder sees exactly the valid bytes."),
+ "C02": ("line-accounting invariant over enumerated iteration paths (linear forms)", " Line accounting: on every path through one iteration of the tokenizer's rune loop the line counter plus the held-back line breaks advance by exactly one when the decoded rune is a newline and not otherwise, and no held line break survives the hand-over of a line's words to the document (so StartLine/EndLine are the lines the words stand on). The confidence is 1 - float(distance)/float(length) with no integer arithmetic on the way."),
+ "C03": ("line-accounting invariant over enumerated iteration paths, loop-nesting rule for token production", " The line-to-tokens conversion emits at most one token per buffered word (token indices stay below the number of input words); the line counter obeys the accounting invariant described under C02. The returned matches are exactly the candidates the overlap filter retained (the result-building append is control dependent on the retain flag only); the components of the corpus key are checked against the separator the key is split at (fails today: known finding D39)."),
+ "C04": ("must-pass-through rule for AddContent", " AddContent reaches addDocument on every path; an explicitly set go-diff DiffTimeout is reported like the default one. A successful return of match never carries constant Results (notices and line count do not depend on the corpus); token ids are converted to diff runes around the surrogate range."),
+ "C05": ("scan-position rule, result-provenance rule for the token clean-up", " The scan position moves only by the size of the decoded rune (no byte is stepped over without being decoded and dispatched); the token clean-up returns text it built rune by rune, never its raw argument unless that was shown to consist of letters only. Text resolved from HTML character references is lower-cased as well; all hyphens and dashes U+2010..U+2015 and the minus sign map to '-'; on every iteration path that appends the rune to an open word unicode.IsSpace(r) returned false."),
+ "C06": ("dominance rule for the notice patterns, key-provenance rule for the spelling table", " The notice patterns are consulted on every path that reaches the token loop; the spelling table is looked up with the cleaned word; integer tokenizer state survives buffer refills too. A word found in the list-marker table is a marker whatever its closing character; after the line buffer is emptied in the middle of a line the following words carry a non-zero position; the scheme rewrite runs to a fixed point and covers the cleaned word; every retained candidate (Copyright matches included) is returned."),
+ "C08": ("scan-position rule", " The scan position moves only by the size of the decoded rune; all tokenizer state (flags, line, held line breaks) is carried across buffer refills. The reader is consumed only through a fill loop whose shape is checked (fills the window or stops at the reader's own error, which it returns unchanged); io.EOF is the only end-of-input sentinel; the decoder's slice ends at the valid bytes."),
  "C10": ("division-guard facts, loop-carried string accumulation rule", " Every integer division by a run-time value is dominated by a non-zero test; no loop extends a string by concatenation (quadratic time on a very long line); the run detector gets the clamped q."),
- "C11": ("case-folding rule for word-table lookups, result-not-trimmed rule, must-derive-from rule for the interned word", " Lower-case word tables consulted by the token clean-up are consulted with a case-folded key or only when normalising (Normalize keeps the capital of a word's first letter); the result of Normalize is not trimmed at its beginning; the interned word derives from html.UnescapeString on every path; the first token is written only after the end-of-line test."),
- "C12": ("walk-callback path rules, single-writer rule for the corpus map", " The walk callback tests the walk error before using the FileInfo and returns SkipDir only for directories; the corpus map is assigned only by the constructor."),
- "C13": ("def-use rule for the raw text, comparator strictness by finite relation enumeration, occurrence-shortcut path rule", " A function that normalises its text parameter uses the raw parameter for nothing else; result lists are sorted by a strict order on exact comparisons with Confidence first; the exact-occurrence shortcut can assign first and last token on one path."),
- "C14": ("publish-after-initialise ordering rule", " A known value is stored in the shared map only after its fields are initialised."),
- "C15": ("loop-scope rule for the decoded search set, order rule for the trailing-text cut", " Each archive entry is decoded into a search set variable declared inside the loop over the entries; the trailing text is cut off before any element of Normalizers is applied."),
- "C17": ("SSA shape rule for TargetRange, path enumeration of the scan loop", " A path through one iteration of Tokenize's scan loop on which the rune contributes to no token has taken the true branch of unicode.IsSpace(r). Tokens may also be cut from the input in one piece (Text: s[a:b], Offset: a, b a scan position or len(s)); a candidate's byte range runs from the Offset of token TargetStart to Offset+len(Text) in bytes of token TargetEnd-1, both taken from the same token."),
- "C18": ("tables read by conditional constant propagation over SSA (one declared Language constant at a time)", " The lexed text is the input plus at most a terminating newline; string contents are recorded as a comment only behind a triple-quote match; every cycle of lex passes an end-of-input test."),
- "C19": ("no-early-exit loop rule, value-identity rule for the bytes matched", " The loop over the library's matches has no early exit; the bytes given to Match are the bytes this call read from the named file; literals and record sites are followed through unexported helpers."),
+ "C11": ("case-folding rule for word-table lookups, result-not-trimmed rule, must-derive-from rule for the interned word", " Lower-case word tables consulted by the token clean-up are consulted with a case-folded key or only when normalising (Normalize keeps the capital of a word's first letter); the result of Normalize is not trimmed at its beginning; the interned word derives from html.UnescapeString on every path; the first token is written only after the end-of-line test. Normalize and match tokenise the unmodified input; a cleaned number ends neither in a dot nor in a hyphen; Normalize writes one line break per line advanced; whether a line is a notice is also decided on its cleaned form."),
+ "C12": ("walk-callback path rules, single-writer rule for the corpus map", " The walk callback tests the walk error before using the FileInfo and returns SkipDir only for directories; the corpus map is assigned only by the constructor. Only entries that are not directories are collected; AddContent receives the whole contents ReadFile returned; between the loop over the files and AddContent only the segment-count and error tests decide."),
+ "C13": ("def-use rule for the raw text, comparator strictness by finite relation enumeration, occurrence-shortcut path rule", " A function that normalises its text parameter uses the raw parameter for nothing else; result lists are sorted by a strict order on exact comparisons with Confidence first; the exact-occurrence shortcut can assign first and last token on one path. An exact occurrence is reported with the byte range the regular expression delimits (never by way of token indices); duplicate removal compares offsets strictly with the exclusive end of a range; New keeps a private copy of the normaliser list (E1 provenance)."),
+ "C14": ("publish-after-initialise ordering rule", " A known value is stored in the shared map only after its fields are initialised. No mutex of the classifier is acquired again by a callee while the caller holds it (RWMutex reader/writer deadlock); every DiffMain call of the v1 classifier must run without go-diff's wall-clock deadline (fails today: known finding D37)."),
+ "C15": ("loop-scope rule for the decoded search set, order rule for the trailing-text cut", " Each archive entry is decoded into a search set variable declared inside the loop over the entries; the trailing text is cut off before any element of Normalizers is applied. No step of Next/read/Next/read is skipped on a path back to the loop head; the errors of closing the tar and gzip writers reach the result and no success return precedes the closes; the default archive option stands in front of the caller's options."),
+ "C16": ("provenance rule for the returned list", " What MultipleMatch returns is the list it filtered in this call (built from nil by the guarded appends), not a cached or shared value."),
+ "C17": ("SSA shape rule for TargetRange, path enumeration of the scan loop", " A path through one iteration of Tokenize's scan loop on which the rune contributes to no token has taken the true branch of unicode.IsSpace(r). Tokens may also be cut from the input in one piece (Text: s[a:b], Offset: a, b a scan position or len(s)); a candidate's byte range runs from the Offset of token TargetStart to Offset+len(Text) in bytes of token TargetEnd-1, both taken from the same token. FindPotentialMatches contains no sort of the candidates by anything but target position."),
+ "C18": ("tables read by conditional constant propagation over SSA (one declared Language constant at a time)", " The lexed text is the input plus at most a terminating newline; string contents are recorded as a comment only behind a triple-quote match; every cycle of lex passes an end-of-input test. Boolean flags that record how a loop was left are followed path-sensitively by the lexer typestate; every rune consumed while a doc string is collected is added to its text; after an escape character the next rune is consumed before any delimiter match."),
+ "C19": ("no-early-exit loop rule, value-identity rule for the bytes matched", " The loop over the library's matches has no early exit; the bytes given to Match are the bytes this call read from the named file; literals and record sites are followed through unexported helpers. The result list is sorted by a strict total order over every field before it is printed, so the output does not depend on the order in which the tasks delivered."),
  "C20": ("both-inclusions rule for Equal", " Equal returns true only behind both inclusions (equal map sizes and one containment loop, or containment loops in both directions)."),
 }
 for _id, (_t, _l) in ADDED.items():
